@@ -76,6 +76,8 @@ def gen_world_case(rng, n_types=28, max_depth=3):
         b = tf.fn("HasKey", ["a", "b", _t.Any])
         c = tf.fn("HasKey", ["a", _t.Any, _t.Any])
         extra += [a, b, c]
+        # ... and types sharing a wildcard slot while differing elsewhere (unordered, from both sides)
+        extra += [tf.fn("HasKey", [_t.Any, "k"]), tf.fn("HasKey", [_t.Any, "j"]), tf.fn("HasKey", ["k", _t.Any]), tf.fn("HasKey", [_t.Any, _t.Any])]
     encs = []
     seen = set()
 
